@@ -6,6 +6,7 @@ package main
 import (
 	"fmt"
 	"go/token"
+	"go/types"
 	"sort"
 	"strings"
 
@@ -24,6 +25,12 @@ type ReadItem struct {
 	Checked bool   // result branched on (an edge of that branch dominates the return)
 	Result  bool   // the result value known on this path (when Checked)
 	Call    ssa.CallInstruction
+	// for reads spliced in from a helper: the helper's evaluator, its return
+	// point, the read instruction inside it, and the position in its sequence
+	Sub   *Sym
+	SubRP *RetPoint
+	Orig  ssa.CallInstruction
+	seq   int
 }
 
 func (it ReadItem) String() string {
@@ -55,6 +62,10 @@ var readOps = map[string]string{
 // argument designates.
 func (s *Sym) dstTerm(v ssa.Value) string {
 	switch v := v.(type) {
+	case *ssa.Parameter:
+		if n, ok := s.dstNames[v]; ok {
+			return n
+		}
 	case *ssa.FieldAddr:
 		return s.pointeeName(v.X) + "." + fieldName(v.X.Type(), v.Field)
 	case *ssa.Alloc:
@@ -67,6 +78,11 @@ func (s *Sym) dstTerm(v ssa.Value) string {
 }
 
 func (s *Sym) pointeeName(v ssa.Value) string {
+	if pa, ok := v.(*ssa.Parameter); ok {
+		if n, ok := s.ptrNames[pa]; ok {
+			return n
+		}
+	}
 	t := s.Of(v)
 	if t.Op == "cell" || t.Op == "ref" {
 		return t.Args[0].String()
@@ -95,6 +111,10 @@ func (p *Prog) ReadSequence(s *Sym, rp *RetPoint) []ReadItem {
 		for _, in := range b.Instrs {
 			c, ok := in.(*ssa.Call)
 			if !ok {
+				continue
+			}
+			if sub := p.helperReads(s, rp, c, checked, result); sub != nil {
+				items = append(items, sub...)
 				continue
 			}
 			name := calleeName(c.Common())
@@ -185,7 +205,12 @@ func (p *Prog) ReadSequence(s *Sym, rp *RetPoint) []ReadItem {
 			items = append(items, it)
 		}
 	}
-	sort.SliceStable(items, func(i, j int) bool { return dominates(items[i].Call, items[j].Call) })
+	sort.SliceStable(items, func(i, j int) bool {
+		if items[i].Call == items[j].Call {
+			return items[i].seq < items[j].seq
+		}
+		return dominates(items[i].Call, items[j].Call)
+	})
 	// ReadUintN(&n) followed by ReadBytes(&x, int(n)) on the same reader is the
 	// length-prefixed read ReadUintNLengthPrefixed(&x), spelled in two steps
 	var merged []ReadItem
@@ -223,6 +248,13 @@ func readSeqString(items []ReadItem) string {
 // tagCheck: is there a fact `local == const` / `local != const` (negated) on
 // the value read by item it. Returns the constant.
 func (p *Prog) tagCheck(s *Sym, rp *RetPoint, it ReadItem) (string, bool) {
+	if it.Sub != nil && it.SubRP != nil {
+		// the tag is read and compared inside a helper: judged there, with the
+		// helper's parameters bound to the caller's arguments
+		sub := it
+		sub.Call, sub.Sub = it.Orig, nil
+		return p.tagCheck(it.Sub, it.SubRP, sub)
+	}
 	for _, a := range rp.Facts {
 		if a.Kind != Truth {
 			continue
@@ -239,16 +271,120 @@ func (p *Prog) tagCheck(s *Sym, rp *RetPoint, it ReadItem) (string, bool) {
 		if _, isC := x.(*ssa.Const); isC {
 			x, y = y, x
 		}
-		c, isC := y.(*ssa.Const)
-		if !isC {
+		yt := s.Of(y)
+		if _, isC := y.(*ssa.Const); !isC && yt.Op != "const" {
+			x, y = y, x
+			yt = s.Of(y)
+		}
+		if yt.Op != "const" {
 			continue
 		}
 		xt := s.Of(x)
 		if xt.Op == "out" && xt.Site == ssa.Instruction(it.Call) {
-			return c.Value.ExactString(), true
+			return yt.Name, true
 		}
 	}
 	return "", false
 }
 
 func fmtItems(items []ReadItem) string { return fmt.Sprint(readSeqString(items)) }
+
+// helperReads: call c (dominating the return point) goes to a module helper
+// that reads from a cryptobyte.String the caller hands it by pointer, or that
+// is the whole decoder the caller forwards to (its results are the caller's
+// results). The helper's reads on its own success returns are reported in the
+// caller's vocabulary (parameters bound to the arguments), in place of the
+// call. nil when c is not such a call.
+func (p *Prog) helperReads(s *Sym, rp *RetPoint, c *ssa.Call, checked, result map[ssa.CallInstruction]bool) []ReadItem {
+	g := c.Call.StaticCallee()
+	if g == nil || g.Blocks == nil || !InModule(g) || len(s.stack) > 3 {
+		return nil
+	}
+	for _, f := range s.stack {
+		if f == g {
+			return nil
+		}
+	}
+	if !(c.Block() == rp.Block || c.Block().Dominates(rp.Block)) {
+		return nil
+	}
+	takesReader := false
+	for _, a := range c.Call.Args {
+		if strings.HasSuffix(a.Type().String(), "*golang.org/x/crypto/cryptobyte.String") {
+			takesReader = true
+		}
+	}
+	forwarded := false
+	for _, v := range rp.Vals {
+		if v == ssa.Value(c) {
+			forwarded = true
+		}
+		if ex, ok := v.(*ssa.Extract); ok && ex.Tuple == ssa.Value(c) {
+			forwarded = true
+		}
+	}
+	if !takesReader && !forwarded {
+		return nil
+	}
+	// does the helper read at all?
+	reads := false
+	for _, b := range g.Blocks {
+		for _, in := range b.Instrs {
+			if cc, ok := in.(*ssa.Call); ok {
+				n := calleeName(cc.Common())
+				if strings.HasPrefix(n, cbString) || strings.HasPrefix(n, cbStringV) {
+					reads = true
+				}
+			}
+		}
+	}
+	if !reads {
+		return nil
+	}
+	ch := s.child(g)
+	s.bindArgs(ch, g, c.Call.Args, c)
+	ch.dstNames = map[*ssa.Parameter]string{}
+	ch.ptrNames = map[*ssa.Parameter]string{}
+	for i, prm := range g.Params {
+		if i >= len(c.Call.Args) {
+			break
+		}
+		if _, isPtr := prm.Type().Underlying().(*types.Pointer); isPtr {
+			ch.dstNames[prm] = s.dstTerm(c.Call.Args[i])
+			ch.ptrNames[prm] = s.pointeeName(c.Call.Args[i])
+		}
+	}
+	okHere := forwarded || (checked[c] && result[c])
+	var out []ReadItem
+	var lastRP *RetPoint
+	seen := ""
+	n := 0
+	for _, grp := range ch.ff.RetPoints(verdictIndex(g)) {
+		if grp.Outcome == Fails {
+			continue
+		}
+		gp := grp
+		seq := p.ReadSequence(ch, &gp)
+		str := readSeqString(seq)
+		if n > 0 && str != seen {
+			return []ReadItem{{Op: "?helper-with-several-read-sequences:" + shortName(g), Call: c}}
+		}
+		seen, out = str, seq
+		lastRP = &gp
+		n++
+	}
+	if n == 0 {
+		return nil
+	}
+	for i := range out {
+		if out[i].Sub == nil {
+			out[i].Sub, out[i].SubRP, out[i].Orig = ch, lastRP, out[i].Call
+		}
+		out[i].Call = c
+		out[i].seq = i
+		if !okHere {
+			out[i].Checked = false
+		}
+	}
+	return out
+}
